@@ -31,16 +31,52 @@ HyperDiffusionTerms(D, k, mix) ==
 GeneralLinearTerms(D, k, J) == { Term(<<"a", j, 0>>, j, SumD(D, LAMBDA d : IkPow(k, d, j))) : j \in 0..J }
 
 Classes == {"Advection", "Diffusion", "AdvectionDiffusion", "Dispersion", "HyperDiffusion", "GeneralLinear", "Wave"}
-HasMixFlag(cls) == cls \in {"Dispersion", "HyperDiffusion"}
 
-Terms(cls, mix, D, k, J) ==
+\* Linear parts of the semi-linear steppers (the L of u_t = L u + N(u)), from the documented PDEs.  A parameter name may be a
+\* product of constructor arguments ("diffusivity*gamma"); "one" is the constant 1.
+\*   Burgers                    nu Lap
+\*   KortewegDeVries            nu Lap - a3 1.(grad(.)grad(.)grad) [or - a3 1.grad Lap] - zeta (grad(.)grad).(grad(.)grad) [or - zeta Lap Lap]
+\*   KuramotoSivashinsky(+Cons) - psi1 Lap - psi2 (grad(.)grad).(grad(.)grad)
+\*   NavierStokes* / Kolmogorov* nu Lap + drag
+\*   FisherKPP  nu Lap + r ;  AllenCahn  nu Lap + c1 ;  CahnHilliard  nu c1 Lap - nu gamma Lap Lap
+\*   SwiftHohenberg  r - (kc + Lap)^2 ;  GrayScott  nu_1 Lap (channel 0), nu_2 Lap (channel 1)
+SemiClasses == {"Burgers", "KortewegDeVries", "KuramotoSivashinsky", "KuramotoSivashinskyConservative", "NavierStokes",
+                "FisherKPP", "AllenCahn", "CahnHilliard", "SwiftHohenberg", "GrayScott"}
+\* variant: small integer; Dispersion/HyperDiffusion: 1 = spatial mixing; KdV: bit 0 = advect_over_diffuse, bit 1 = diffuse_over_diffuse;
+\* GrayScott: channel
+Variants(cls) == IF cls \in {"Dispersion", "HyperDiffusion", "GrayScott"} THEN {0, 1}
+                 ELSE IF cls = "KortewegDeVries" THEN {0, 1, 2, 3} ELSE {0}
+P0(name) == <<name, 0, 0>>
+Sum4(D, k) == SumD(D, LAMBDA d : IkPow(k, d, 4))
+Sum3(D, k) == SumD(D, LAMBDA d : IkPow(k, d, 3))
+Sum1(D, k) == SumD(D, LAMBDA d : Ik(k, d))
+BiLap(k) == CMul(NegSq(k), NegSq(k))
+SemiTerms(cls, v, D, k) ==
+    CASE cls = "Burgers" -> { Term(P0("diffusivity"), 2, NegSq(k)) }
+      [] cls = "KortewegDeVries" ->
+            { Term(P0("diffusivity"), 2, NegSq(k)),
+              Term(P0("dispersivity"), 3, CNeg(IF v % 2 = 1 THEN CMul(Sum1(D, k), NegSq(k)) ELSE Sum3(D, k))),
+              Term(P0("hyper_diffusivity"), 4, CNeg(IF v \div 2 = 1 THEN BiLap(k) ELSE Sum4(D, k))) }
+      [] cls \in {"KuramotoSivashinsky", "KuramotoSivashinskyConservative"} ->
+            { Term(P0("second_order_scale"), 2, CNeg(NegSq(k))), Term(P0("fourth_order_scale"), 4, CNeg(Sum4(D, k))) }
+      [] cls = "NavierStokes" -> { Term(P0("diffusivity"), 2, NegSq(k)), Term(P0("drag"), 0, COne) }
+      [] cls = "FisherKPP"    -> { Term(P0("diffusivity"), 2, NegSq(k)), Term(P0("reactivity"), 0, COne) }
+      [] cls = "AllenCahn"    -> { Term(P0("diffusivity"), 2, NegSq(k)), Term(P0("first_order_coefficient"), 0, COne) }
+      [] cls = "CahnHilliard" -> { Term(P0("diffusivity*first_order_coefficient"), 2, NegSq(k)),
+                                   Term(P0("diffusivity*gamma"), 4, CNeg(BiLap(k))) }
+      [] cls = "SwiftHohenberg" -> { Term(P0("reactivity"), 0, COne), Term(P0("critical_number*critical_number"), 0, CInt(-1)),
+                                     Term(P0("critical_number"), 2, CScale(QInt(-2), NegSq(k))), Term(P0("one"), 4, CNeg(BiLap(k))) }
+      [] cls = "GrayScott" -> { Term(P0(IF v = 0 THEN "diffusivity_1" ELSE "diffusivity_2"), 2, NegSq(k)) }
+
+Terms(cls, v, D, k, J) ==
     CASE cls = "Advection"          -> AdvectionTerms(D, k)
       [] cls = "Diffusion"          -> DiffusionTerms(D, k)
       [] cls = "AdvectionDiffusion" -> AdvectionTerms(D, k) \cup DiffusionTerms(D, k)
-      [] cls = "Dispersion"         -> DispersionTerms(D, k, mix)
-      [] cls = "HyperDiffusion"     -> HyperDiffusionTerms(D, k, mix)
+      [] cls = "Dispersion"         -> DispersionTerms(D, k, v = 1)
+      [] cls = "HyperDiffusion"     -> HyperDiffusionTerms(D, k, v = 1)
       [] cls = "GeneralLinear"      -> GeneralLinearTerms(D, k, J)
       [] cls = "Wave"               -> {}
+      [] OTHER                      -> SemiTerms(cls, v, D, k)
 
 \* value of a term list at rational parameters: par(c) \in Q, w \in Q
 EvalTerms(T, par(_), w) == CSum(T, LAMBDA t : CScale(QMul(par(t.c), QPow(w, t.w)), t.m))
